@@ -7,6 +7,8 @@ import (
 	"encoding/hex"
 	"encoding/json"
 	"fmt"
+	"io"
+	"log"
 	"os"
 	"os/exec"
 	"path/filepath"
@@ -240,6 +242,11 @@ func worker(i, n int, out, id, tier string) (code int) {
 	c := newCtx(ck, tier, i, n)
 	c.Scratch = filepath.Join(c.Scratch, fmt.Sprintf("w%d", i))
 	os.MkdirAll(c.Scratch, 0o755)
+	// the code under test prints warnings; a worker's only output is its report
+	if dn, err := os.OpenFile(os.DevNull, os.O_WRONLY, 0); err == nil {
+		os.Stdout = dn
+	}
+	log.SetOutput(io.Discard)
 	func() {
 		defer func() {
 			if r := recover(); r != nil {
@@ -374,6 +381,10 @@ func finish(ck *Check, tier string, m *Report, harness string, wall time.Duratio
 		fmt.Printf("KNOWN-FINDING: property=%s %s [%s]\n", ck.ID, known[k].What, k)
 	}
 	replayDir := filepath.Join(verif, "replays", ck.ID)
+	if os.Getenv("VERIF_NOEVIDENCE") != "" {
+		// trial run against a scratch copy (bin/mutate): leave /verif untouched
+		replayDir = filepath.Join("/dev/shm", "verif.trial.replays", ck.ID)
+	}
 	for _, v := range unknown {
 		b, _ := json.MarshalIndent(v, "", " ")
 		h := sha256.Sum256(b)
@@ -397,6 +408,9 @@ func finish(ck *Check, tier string, m *Report, harness string, wall time.Duratio
 }
 
 func writeEvidence(ck *Check, tier string, m *Report, viol int, wall time.Duration, harness string) {
+	if os.Getenv("VERIF_NOEVIDENCE") != "" {
+		return
+	}
 	verif := env("VERIF_ROOT", "/verif")
 	seed, _ := strconv.Atoi(os.Getenv("VERIF_SEED"))
 	cov := map[string]any{
